@@ -69,17 +69,20 @@ ProcDoc(calls) ==
 ProcRun(n) == \A calls \in SeqsUpTo(ProcCalls, n) :
                 EmitTR => PrintT(<<"PB", ToJson([calls |-> calls, doc |-> ProcDoc(calls)])>>)
 
-LaunchCalls == {C("process", "web"), C("process", "worker"), C("label", "l1"), C("label", "l2"), C("slice", "s1"), C("labels", "l3,l4")}
+\* every builder method, singular and plural (a plural call appends all its items, in order)
+LaunchCalls == {C("process", "web"), C("process", "worker"), C("processes", "p3,p4"), C("label", "l1"), C("label", "l2"),
+                C("labels", "l3,l4"), C("slice", "s1"), C("slices", "s2,s3")}
+ItemsOf(c) == CASE c.op = "labels" -> <<"l3", "l4">> [] c.op = "slices" -> <<"s2", "s3">>
+                [] c.op = "processes" -> <<"p3", "p4">> [] OTHER -> <<c.arg>>
 LaunchDoc(calls) ==
   LET of(op) == {i \in DOMAIN calls : calls[i].op = op}
       seqOf(ops) == LET idx == UNION {of(o) : o \in ops}
                     IN [k \in 1..Cardinality(idx) |-> calls[CHOOSE i \in idx : Cardinality({j \in idx : j < i}) = k - 1]]
-      labelsOf(c) == IF c.op = "labels" THEN <<"l3", "l4">> ELSE <<c.arg>>
       RECURSIVE flat(_)
-      flat(s) == IF s = <<>> THEN <<>> ELSE labelsOf(Head(s)) \o flat(Tail(s))
-  IN [processes |-> [k \in DOMAIN seqOf({"process"}) |-> seqOf({"process"})[k].arg],
+      flat(s) == IF s = <<>> THEN <<>> ELSE ItemsOf(Head(s)) \o flat(Tail(s))
+  IN [processes |-> flat(seqOf({"process", "processes"})),
       labels |-> flat(seqOf({"label", "labels"})),
-      slices |-> [k \in DOMAIN seqOf({"slice"}) |-> seqOf({"slice"})[k].arg]]
+      slices |-> flat(seqOf({"slice", "slices"}))]
 LaunchRun(n) == \A calls \in SeqsUpTo(LaunchCalls, n) :
                   EmitTR => PrintT(<<"LB", ToJson([calls |-> calls, doc |-> LaunchDoc(calls)])>>)
 
